@@ -829,8 +829,15 @@ else:
             self.start()
             return self
 
-        def __exit__(self, *args, **kwargs) -> None:
+        def __exit__(self, exc_type, *args, **kwargs) -> None:
+            if exc_type is not None:
+                # sentinel is never sent, the writer would wait forever
+                self.process.terminate()
             self.join()
+            if exc_type is None and self.process.exitcode != 0:
+                raise RuntimeError(
+                    f"writer process failed with exit code {self.process.exitcode}"
+                )
 
         def task(self) -> None:
             with CatalogWriter(
